@@ -38,7 +38,9 @@ def replay(ctx, data):
 
 TECHNIQUE = "Lean 4 theorems over the daemon model (mood monotonicity, no fork while not RUNNING, RPC gate, exit test, ordered stop) + correspondence of that model with the unmodified runforever() over a simulated kernel"
 LEVEL_TEXT = ("sighup_ignored_in_shutdown, mood_never_rises, no_fork_when_not_running, rpcs_refused, stopped_stays_stopped, exit_only_when_all_stopped, "
-              "phase2_pops_only_stopped_group are proved for all states/environments; group order and the single STOPPING notification are checked "
-              "on every scenario by the monitor and by correspondence with the model")
-LEVEL_NOTE = "liveness (the loop does exit when every child dies on SIGKILL) is exercised, not proved; see DESIGN.md C05"
+              "phase2_pops_only_stopped_group are proved for all states/environments; stopping_announced_at_most_once and mood_never_rises_daemon are "
+              "proved for every sequence of main-loop passes under every environment (induction over passes); the safety skeleton of the "
+              "liveness clause (stop_all_skips_stopping, stopping_left_only_by_reap, deadline_never_postponed, exits_when_all_stopped) is proved; "
+              "group order is checked on every scenario by the monitor and by correspondence with the model")
+LEVEL_NOTE = "liveness itself (the clock reaches the deadline; a child dies on SIGKILL; hence the loop exits) involves the kernel and the clock: its code-side safety skeleton is proved, the end-to-end statement is exercised by the scenarios (monitor shutdown-did-not-finish), not proved"
 DESIGN_REF = "DESIGN.md section 6, C05"
